@@ -23,9 +23,10 @@ EVIDENCE = {
             '(0-26 variables, typed and default-typed, TOC and raw-memory variables, unknown names, payloads 24-28 bytes, '
             'periods around 10 ms and 2.54 s); the firmware model samples on virtual timers and encodes extremes.',
     'directed': 'payload sizes 24..28 bytes x create/append split positions (9..12 variables of 1-4 bytes); periods '
-                '{0, 5, 9, 10, 20, 2540, 2550, 2560, 5000} ms',
+                '{0, 5, 9, 10, 20, 2540, 2550, 2560, 5000} ms; legacy protocol with 13..26 variables (append message needed '
+                'from 15 on)',
     'real': ['Log', 'LogConfig', 'LogVariable', 'LogTocElement', 'SyncLogger', 'Toc', '_IncomingPacketHandler'],
-    'stub': ['SimLink (lossless FIFO)', 'SimCF log service (create/append v1+v2, start/stop/delete/reset, sampling)'],
+    'stub': ['SimLink (FIFO; START acknowledgements lost with rate 0.3/0.6 in 18 % of the runs)', 'SimCF log service (create/append v1+v2, start/stop/delete/reset, sampling)'],
     'assumptions': [
         'periods that are multiples of 10 ms in [10, 2540] must be accepted, periods < 10 ms or >= 2550 ms rejected; '
         'periods in between are not judged',
@@ -34,7 +35,11 @@ EVIDENCE = {
         'the raw-memory variable entry layout of the current protocol cannot be confirmed offline: for such configurations '
         'the oracle only demands that creation messages are produced',
         'configurations stay within the library\'s global limits (16 blocks, 128 variables)',
-        'no loss or duplication is injected: the statement does not quantify over them',
+        'the only loss injected is that of START acknowledgements on links that need resending (the block then runs and '
+        'sends data before the library has seen the acknowledgement of its retransmitted START)',
+        'completeness: a data packet handed to the library must reach the data callback if the added callback of that '
+        'block had fired before and neither delete() nor a tear-down of the link began within 50 ms (650 ms with stalls) '
+        'after the hand-over',
     ],
 }
 
